@@ -218,10 +218,12 @@ def _refuse_reader_filters(lowered):
         from dask_expr.io.parquet import ReadParquet
     except Exception:
         return
+    from dask_expr._expr import Fused
+
     for e in lowered.walk():
         if isinstance(e, ReadParquet) and e.operand("filters"):
             raise Unsupported("filter pushed into the parquet reader (evaluated by Arrow on stored values; see C18 for the pushed expression)")
-        for sub in getattr(e, "exprs", []) or []:
+        for sub in (e.exprs if isinstance(e, Fused) else []):
             for x in sub.walk():
                 if isinstance(x, ReadParquet) and x.operand("filters"):
                     raise Unsupported("filter pushed into the parquet reader (evaluated by Arrow on stored values; see C18 for the pushed expression)")
